@@ -51,14 +51,18 @@ def to_dimacs_file(formula, fileorname=None,
     if export_header:
         # remove non ascii text
         for field in formula.header:
-            tmp = "c {}: {}\n".format(field, formula.header[field])
+            tmp = "{}: {}".format(field, formula.header[field])
             tmp = tmp.encode('ascii', errors='replace').decode('ascii')
-            output.write(tmp)
+            # every line of a multi-line value stays inside the comment
+            for line in tmp.splitlines() or ['']:
+                output.write("c " + line + "\n")
         output.write("c\n")
 
     if export_varnames:
         for varid, label in enumerate(formula.all_variable_labels(), start=1):
-            output.write("c varname {0} {1}\n".format(varid, label))
+            tmp = "varname {0} {1}".format(varid, label)
+            for line in tmp.splitlines() or ['']:
+                output.write("c " + line + "\n")
         output.write("c\n")
 
     # Formula specification
